@@ -505,9 +505,9 @@ Section Paths.
     intros Hc. destruct (cwf_facts c Hc) as [n [w [T [Hwf [Hk [Hl Hnd]]]]]].
     destruct e, t; cbn [sem nsem]; try discriminate; intro H;
       try (inversion H; subst; reflexivity).
-    - (* L > N *) inversion H; subst t' c'. cbn [c_names]. unfold ncols_of at 2. cbn [c_data].
+    - (* L > N *) inversion H; subst t' c'. unfold cnames, ncols_of in *. cbn [c_names c_data].
       rewrite (sorted_panel_ncols n w T _ _ Hwf Hnd Hl), Hk. reflexivity.
-    - (* T > N *) inversion H; subst t' c'. cbn [c_names]. unfold ncols_of at 1. cbn [c_data].
+    - (* T > N *) inversion H; subst t' c'. unfold ncols_of. cbn [c_names c_data].
       rewrite (wf_shape_cols n 1 (w * T) _ (flattenp_wf n w T _ Hwf)). reflexivity.
     - destruct (to_np && to_pd); [discriminate|]. destruct to_np; inversion H; reflexivity.
     - destruct (to_np && to_pd); [discriminate|]. destruct to_pd; inversion H; reflexivity.
